@@ -6,7 +6,7 @@ open AJ
 
 theorem Heap.setReq_self (h : Heap) (j : Nat) : h.setReq j (h.req j) = h := by
   cases h with
-  | mk req sj ss m =>
+  | mk req sj ss m sp =>
     simp only [Heap.setReq]
     congr 1
     funext k
@@ -25,6 +25,29 @@ theorem Heap.setReq_setReq (h : Heap) (j : Nat) (a b : List Nat) :
 theorem setReq_req_ne (h : Heap) (j k : Nat) (l : List Nat) (hk : k ≠ j) :
     (h.setReq j l).req k = h.req k := by
   simp [Heap.setReq, hk]
+
+@[simp] theorem setSeqPending_req (h : Heap) (q : Nat) (l : List Nat) :
+    (h.setSeqPending q l).req = h.req := rfl
+@[simp] theorem setSeqPending_seqJobs (h : Heap) (q : Nat) (l : List Nat) :
+    (h.setSeqPending q l).seqJobs = h.seqJobs := rfl
+@[simp] theorem setSeqPending_mem (h : Heap) (q : Nat) (l : List Nat) :
+    (h.setSeqPending q l).mem = h.mem := rfl
+@[simp] theorem setSeqPending_seqSched (h : Heap) (q : Nat) (l : List Nat) :
+    (h.setSeqPending q l).seqSched = h.seqSched := rfl
+@[simp] theorem setSeqPending_self (h : Heap) (q : Nat) (l : List Nat) :
+    (h.setSeqPending q l).seqPending q = l := by
+  simp [Heap.setSeqPending]
+theorem setSeqPending_ne (h : Heap) (q k : Nat) (l : List Nat) (hk : k ≠ q) :
+    (h.setSeqPending q l).seqPending k = h.seqPending k := by
+  simp [Heap.setSeqPending, hk]
+@[simp] theorem setSeqJobs_seqPending (h : Heap) (q : Nat) (l : List Nat) :
+    (h.setSeqJobs q l).seqPending = h.seqPending := rfl
+@[simp] theorem setSeqSched_seqPending (h : Heap) (q : Nat) (s : Option Nat) :
+    (h.setSeqSched q s).seqPending = h.seqPending := rfl
+@[simp] theorem setReq_seqPending (h : Heap) (j : Nat) (l : List Nat) :
+    (h.setReq j l).seqPending = h.seqPending := rfl
+@[simp] theorem setMem_seqPending (h : Heap) (s : Nat) (l : List Nat) :
+    (h.setMem s l).seqPending = h.seqPending := rfl
 
 /-! ### `addNew` / `unionNew` -/
 
@@ -77,6 +100,10 @@ theorem reqOne_mem (j : Nat) (rm : Bool) (h : Heap) (r : Nat) :
 
 theorem reqOne_seqSched (j : Nat) (rm : Bool) (h : Heap) (r : Nat) :
     (reqOne j rm h r).1.seqSched = h.seqSched := by
+  unfold reqOne; split <;> split <;> rfl
+
+theorem reqOne_seqPending (j : Nat) (rm : Bool) (h : Heap) (r : Nat) :
+    (reqOne j rm h r).1.seqPending = h.seqPending := by
   unfold reqOne; split <;> split <;> rfl
 
 theorem reqOne_req_ne (j : Nat) (rm : Bool) (h : Heap) (r k : Nat) (hk : k ≠ j) :
@@ -167,6 +194,12 @@ theorem reqArgs_seqSched (j rm h as) : (reqArgs j rm h as).1.seqSched = h.seqSch
 theorem reqArg_seqSched (j rm h a) : (reqArg j rm h a).1.seqSched = h.seqSched :=
   (req_lift j rm (fun h' => h'.seqSched = h.seqSched)
     (fun h' r hp => by rw [reqOne_seqSched]; exact hp)).1 h a rfl
+theorem reqArgs_seqPending (j rm h as) : (reqArgs j rm h as).1.seqPending = h.seqPending :=
+  (req_lift j rm (fun h' => h'.seqPending = h.seqPending)
+    (fun h' r hp => by rw [reqOne_seqPending]; exact hp)).2 h as rfl
+theorem reqArg_seqPending (j rm h a) : (reqArg j rm h a).1.seqPending = h.seqPending :=
+  (req_lift j rm (fun h' => h'.seqPending = h.seqPending)
+    (fun h' r hp => by rw [reqOne_seqPending]; exact hp)).1 h a rfl
 theorem reqArgs_req_ne (j rm h as k) (hk : k ≠ j) : (reqArgs j rm h as).1.req k = h.req k :=
   (req_lift j rm (fun h' => h'.req k = h.req k)
     (fun h' r hp => by rw [reqOne_req_ne _ _ _ _ _ hk]; exact hp)).2 h as rfl
@@ -190,6 +223,25 @@ theorem flat_congr (h h' : Heap) (hs : h'.seqJobs = h.seqJobs) :
   · intro xs ih; simpa [flat] using ih
   · simp [flats]
   · intro a as ih1 ih2; simp [flats, ih1, ih2]
+
+/-- `Sequence._resolve` computes what the documentation says an argument stands for -/
+theorem resolve_eq_flat (h : Heap) :
+    (∀ a, resolve h a = flat h a) ∧ (∀ as, resolves h as = flats h as) := by
+  apply flat.mutual_induct (fun a => resolve h a = flat h a) (fun as => resolves h as = flats h as)
+  · simp [resolve, flat]
+  · intro r; simp [resolve, flat]
+  · intro q
+    simp only [resolve, flat]
+    cases (h.seqJobs q).getLast? <;> rfl
+  · intro xs ih; simpa [resolve, flat] using ih
+  · simp [resolves, flats]
+  · intro a as ih1 ih2; simp [resolves, flats, ih1, ih2]
+
+/-- a list of jobs stands for itself -/
+theorem flats_map_job (h : Heap) (l : List Nat) : flats h (l.map Arg.job) = l := by
+  induction l with
+  | nil => simp [flats]
+  | cons x xs ih => simp [flats, flat, ih]
 
 /-- the additive case, both levels at once -/
 theorem req_add_aux (j : Nat) :
@@ -344,6 +396,10 @@ theorem chain_seqSched (h prev l) : (chain h prev l).seqSched = h.seqSched :=
   chain_lift (fun h' => h'.seqSched = h.seqSched)
     (fun h' j r hp => by rw [reqOne_seqSched]; exact hp) l h prev rfl
 
+theorem chain_seqPending (h prev l) : (chain h prev l).seqPending = h.seqPending :=
+  chain_lift (fun h' => h'.seqPending = h.seqPending)
+    (fun h' j r hp => by rw [reqOne_seqPending]; exact hp) l h prev rfl
+
 theorem chain_mono (h prev l x y) (hy : y ∈ h.req x) : y ∈ (chain h prev l).req x :=
   chain_lift (fun h' => y ∈ h'.req x) (fun h' j r hp => reqOne_false_mono j h' r x y hp) l h prev hy
 
@@ -360,6 +416,91 @@ theorem reqArg_false_mono (j h a x y) (hy : y ∈ h.req x) : y ∈ (reqArg j fal
   cases s <;> rfl
 
 @[simp] theorem register_seqJobs (h s js) : (register h s js).seqJobs = h.seqJobs := by
+  cases s <;> rfl
+
+/-! ### `givePending` -/
+
+theorem givePending_seqJobs (h : Heap) (q : Nat) : (givePending h q).seqJobs = h.seqJobs := by
+  unfold givePending
+  split
+  · rfl
+  · split
+    · rfl
+    · rw [setSeqPending_seqJobs, reqArg_seqJobs]
+
+theorem givePending_mem (h : Heap) (q : Nat) : (givePending h q).mem = h.mem := by
+  unfold givePending
+  split
+  · rfl
+  · split
+    · rfl
+    · rw [setSeqPending_mem, reqArg_mem]
+
+theorem givePending_seqSched (h : Heap) (q : Nat) : (givePending h q).seqSched = h.seqSched := by
+  unfold givePending
+  split
+  · rfl
+  · split
+    · rfl
+    · rw [setSeqPending_seqSched, reqArg_seqSched]
+
+/-- exactly: the first job of `q` (if any) receives the pending requirements other than itself -/
+theorem givePending_req (h : Heap) (q x y : Nat) :
+    y ∈ (givePending h q).req x ↔
+      (y ∈ h.req x ∨ ((h.seqJobs q).head? = some x ∧ y ∈ h.seqPending q ∧ y ≠ x)) := by
+  unfold givePending
+  split
+  · rename_i hj; simp [hj]
+  · rename_i j0 t hj
+    split
+    · rename_i hp
+      have hp' : h.seqPending q = [] := by simpa using hp
+      simp [hp']
+    · rw [setSeqPending_req]
+      by_cases hx : x = j0
+      · subst hx
+        have := ((req_add_aux x).1 h (.coll ((h.seqPending q).map .job))).2 y
+        rw [this]
+        simp only [flat, flats_map_job, hj, List.head?_cons, true_and]
+      · rw [reqArg_req_ne _ _ _ _ _ hx]
+        have : ¬ (some j0 = some x) := by
+          intro e; exact hx (Option.some.inj e).symm
+        simp [hj, this]
+
+theorem givePending_noself (h : Heap) (q : Nat) (hinv : ∀ k, k ∉ h.req k) :
+    ∀ k, k ∉ (givePending h q).req k := by
+  intro k hk
+  rcases (givePending_req h q k k).1 hk with h1 | ⟨_, _, h1⟩
+  · exact hinv k h1
+  · exact h1 rfl
+
+theorem givePending_pending_cons (h : Heap) (q : Nat) (hj : h.seqJobs q ≠ []) :
+    (givePending h q).seqPending q = [] := by
+  unfold givePending
+  split
+  · rename_i e; exact absurd e hj
+  · split
+    · rename_i hp; simpa using hp
+    · simp
+
+theorem givePending_pending_nil (h : Heap) (q : Nat) (hj : h.seqJobs q = []) :
+    givePending h q = h := by
+  unfold givePending
+  simp [hj]
+
+theorem givePending_pending_ne (h : Heap) (q k : Nat) (hk : k ≠ q) :
+    (givePending h q).seqPending k = h.seqPending k := by
+  unfold givePending
+  split
+  · rfl
+  · split
+    · rfl
+    · rw [setSeqPending_ne _ _ _ _ hk, reqArg_seqPending]
+
+@[simp] theorem register_seqPending (h s js) : (register h s js).seqPending = h.seqPending := by
+  cases s <;> rfl
+
+@[simp] theorem register_seqSched (h s js) : (register h s js).seqSched = h.seqSched := by
   cases s <;> rfl
 
 end AJ.Proofs.C19
